@@ -75,3 +75,22 @@ void *memmem(const void *h, size_t hl, const void *n, size_t nl)
 	}
 	return (void *) 0;
 }
+
+/* <ctype.h>: glibc's macros index the tables returned by these three functions; model = the "C" locale
+ * (what the tool runs in: it never calls setlocale) */
+#include "ctype_tables.h"
+const unsigned short **__ctype_b_loc(void)
+{
+	static const unsigned short *p = verif_ctype_b + 128;
+	return &p;
+}
+const int **__ctype_tolower_loc(void)
+{
+	static const int *p = verif_ctype_lower + 128;
+	return &p;
+}
+const int **__ctype_toupper_loc(void)
+{
+	static const int *p = verif_ctype_upper + 128;
+	return &p;
+}
